@@ -52,12 +52,31 @@ theorem loopTop_frame (s : St) :
   unfold loopTop goSleep attempt
   (repeat' split) <;> simp_all
 
+def Ev.isTrack : Ev → Bool
+  | .setTracking _ => true
+  | _ => false
+
 theorem step_frame (s : St) (e : Ev) (h : Active s) :
     (step s e).1.req = s.req ∧ (step s e).1.prev = s.prev ∧ (step s e).1.timeout = s.timeout ∧
-    (step s e).1.tracking = s.tracking ∧ (step s e).1.hold = s.hold ∧ Active (step s e).1 := by
+    (e.isTrack = false → (step s e).1.tracking = s.tracking) ∧ (step s e).1.hold = s.hold ∧
+    Active (step s e).1 := by
   unfold Active at *
   have lt := loopTop_frame { s with now := s.wake, retries := s.retries - 1 }
-  cases e <;> simp only [step, goSleep, update] <;> (repeat' split) <;> simp_all
+  cases e <;> simp only [step, goSleep, update, Ev.isTrack] <;> (repeat' split) <;> simp_all
+
+/-- only a frame-versions announcement changes the tracking flag (in any state) -/
+theorem step_tracking (s : St) (e : Ev) (he : e.isTrack = false) : (step s e).1.tracking = s.tracking := by
+  have lt := loopTop_frame { s with now := s.wake, retries := s.retries - 1 }
+  cases e with
+  | setTracking b => simp [Ev.isTrack] at he
+  | call v r T =>
+    simp only [step]
+    (repeat' split) <;> try rfl
+    exact (loopTop_frame _).2.2.2.1
+  | built => simp only [step, goSleep]; (repeat' split) <;> simp_all
+  | report t => rfl
+  | wait d => simp only [step]; (repeat' split) <;> simp_all
+  | timer => simp only [step]; (repeat' split) <;> simp_all
 
 theorem loopTop_wf (s : St) : WF (loopTop s).1 := by
   unfold WF loopTop goSleep attempt
@@ -229,6 +248,7 @@ theorem step_pending (s : St) (e : Ev) (h : Active s) :
   | built => simp only [step, goSleep]; (repeat' split) <;> simp_all
   | wait d => simp only [step]; (repeat' split) <;> simp_all
   | timer => simp only [step]; (repeat' split) <;> simp_all
+  | setTracking b => simp [step]
 
 theorem any_append' {α} (p : α → Bool) (a b : List α) : (a ++ b).any p = (a.any p || b.any p) := by
   simp
@@ -369,67 +389,88 @@ def awaiting (s : St) : Bool :=
   | .buildRefresh => true
   | _ => false
 
-theorem loopTop_paired (s : St) (ht : s.tracking = false) (c : Bool) (rest : List Bool) :
-    paired c false (txKinds (loopTop s).2 ++ rest) = paired c (awaiting (loopTop s).1) rest := by
-  unfold loopTop goSleep attempt awaiting
-  (repeat' split) <;> simp_all [txKinds, paired]
+/-- the same acceptor over tagged outputs: a set request opens a pair exactly when the tracking
+flag was off while it was made -/
+def pairedT (complete : Bool) : Bool → List (Out × Bool) → Bool
+  | aw, [] => !(complete && aw)
+  | aw, (.txSet _ _, tr) :: r => if aw then false else pairedT complete (!tr) r
+  | aw, (.txRefresh _, _) :: r => if aw then pairedT complete false r else false
+  | aw, _ :: r => pairedT complete aw r
 
-theorem step_paired (s : St) (e : Ev) (h : Active s) (ht : s.tracking = false) (c : Bool)
-    (rest : List Bool) :
-    paired c (awaiting s) (txKinds (step s e).2 ++ rest) = paired c (awaiting (step s e).1) rest := by
-  unfold Active at h
-  have lt := loopTop_paired { s with now := s.wake, retries := s.retries - 1 } ht c rest
-  cases e <;> simp only [step, goSleep, update] <;> (repeat' split) <;>
-    simp_all [txKinds, paired, awaiting]
+def tag (x : St × List Out) : List (Out × Bool) := x.2.map (fun o => (o, x.1.tracking))
 
-theorem run_paired (s : St) (es : List Ev) (h : Active s) (ht : s.tracking = false) :
-    paired false (awaiting s) (txKinds (run s es).2) = true := by
+@[simp] theorem tagged_nil (s : St) : tagged s [] = [] := rfl
+@[simp] theorem tagged_cons (s : St) (e : Ev) (es : List Ev) :
+    tagged s (e :: es) = tag (step s e) ++ tagged (step s e).1 es := rfl
+
+theorem tagged_fst (s : St) (es : List Ev) : (tagged s es).map Prod.fst = (run s es).2 := by
   induction es generalizing s with
-  | nil => simp [paired]
-  | cons e es ih =>
-    have f := step_frame s e h
-    simp only [run_cons, txKinds_append]
-    rw [step_paired s e h ht]
-    exact ih _ f.2.2.2.2.2 (by rw [f.2.2.2.1]; exact ht)
+  | nil => simp
+  | cons e es ih => simp [tag, ih, Function.comp_def]
 
-theorem run_paired_complete (s : St) (es : List Ev) (h : Active s) (ht : s.tracking = false)
-    (hd : (run s es).1.phase = .done) :
-    paired true (awaiting s) (txKinds (run s es).2) = true := by
+theorem loopTop_pairedT (s : St) (c : Bool) (rest : List (Out × Bool)) :
+    pairedT c false (tag (loopTop s) ++ rest) = pairedT c (awaiting (loopTop s).1) rest := by
+  unfold loopTop goSleep attempt awaiting tag
+  (repeat' split) <;> simp_all [pairedT]
+
+theorem step_pairedT (s : St) (e : Ev) (h : Active s) (c : Bool) (rest : List (Out × Bool)) :
+    pairedT c (awaiting s) (tag (step s e) ++ rest) = pairedT c (awaiting (step s e).1) rest := by
+  unfold Active at h
+  have lt := loopTop_pairedT { s with now := s.wake, retries := s.retries - 1 } c rest
+  cases e <;> simp only [step, goSleep, update] <;> (repeat' split) <;>
+    simp_all [pairedT, awaiting, tag]
+
+theorem run_pairedT (s : St) (es : List Ev) (h : Active s) :
+    pairedT false (awaiting s) (tagged s es) = true := by
+  induction es generalizing s with
+  | nil => simp [pairedT]
+  | cons e es ih =>
+    rw [tagged_cons, step_pairedT s e h]
+    exact ih _ (step_frame s e h).2.2.2.2.2
+
+theorem run_pairedT_complete (s : St) (es : List Ev) (h : Active s)
+    (hd : (run s es).1.phase = .done) : pairedT true (awaiting s) (tagged s es) = true := by
   induction es generalizing s with
   | nil =>
     simp only [run_nil] at hd
-    simp [paired, awaiting, hd]
+    simp [pairedT, awaiting, hd]
   | cons e es ih =>
-    have f := step_frame s e h
-    simp only [run_cons, txKinds_append]
-    rw [step_paired s e h ht]
-    exact ih _ f.2.2.2.2.2 (by rw [f.2.2.2.1]; exact ht) hd
+    rw [tagged_cons, step_pairedT s e h]
+    exact ih _ (step_frame s e h).2.2.2.2.2 hd
 
-theorem loopTop_noRefresh (s : St) (ht : s.tracking = true) : (txKinds (loopTop s).2).all id = true := by
-  unfold loopTop goSleep attempt
-  (repeat' split) <;> simp_all [txKinds]
-
-theorem step_noRefresh (s : St) (e : Ev) (h : Active s) (w : s.phase ≠ .buildRefresh)
-    (ht : s.tracking = true) :
-    (txKinds (step s e).2).all id = true ∧ (step s e).1.phase ≠ .buildRefresh := by
-  unfold Active at h
-  have lt := loopTop_noRefresh { s with now := s.wake, retries := s.retries - 1 } ht
-  have lp : (loopTop { s with now := s.wake, retries := s.retries - 1 }).1.phase ≠ .buildRefresh := by
-    unfold loopTop goSleep attempt
-    (repeat' split) <;> simp_all
-  cases e <;> simp only [step, goSleep, update] <;> (repeat' split) <;>
-    simp_all [txKinds]
-
-theorem run_noRefresh (s : St) (es : List Ev) (h : Active s) (w : s.phase ≠ .buildRefresh)
-    (ht : s.tracking = true) : (txKinds (run s es).2).all id = true := by
+/-- without announcements the tag never changes -/
+theorem tagged_const (s : St) (es : List Ev) (hn : ∀ e ∈ es, e.isTrack = false) :
+    ∀ x ∈ tagged s es, x.2 = s.tracking := by
   induction es generalizing s with
   | nil => simp
   | cons e es ih =>
-    have f := step_frame s e h
-    have g := step_noRefresh s e h w ht
-    simp only [run_cons, txKinds_append, List.all_append, g.1, Bool.true_and]
-    exact ih _ f.2.2.2.2.2 g.2 (by rw [f.2.2.2.1]; exact ht)
+    have ht := step_tracking s e (hn e (by simp))
+    intro x hx
+    rw [tagged_cons, List.mem_append] at hx
+    rcases hx with hx | hx
+    · simp only [tag, List.mem_map] at hx
+      obtain ⟨o, _, rfl⟩ := hx
+      exact ht
+    · rw [← ht]
+      exact ih _ (fun e' he' => hn e' (by simp [he'])) x hx
 
+theorem pairedT_untracked (c : Bool) : ∀ (aw : Bool) (l : List (Out × Bool)), (∀ x ∈ l, x.2 = false) →
+    pairedT c aw l = paired c aw (txKinds (l.map Prod.fst))
+  | aw, [], _ => by cases aw <;> simp [pairedT, paired]
+  | aw, (o, tr) :: r, h => by
+    have htr : tr = false := h (o, tr) (by simp)
+    have ih := fun aw' => pairedT_untracked c aw' r (fun x hx => h x (by simp [hx]))
+    subst htr
+    cases o <;> cases aw <;> simp [pairedT, paired, txKinds, ih]
+
+theorem pairedT_tracked (c : Bool) : ∀ (l : List (Out × Bool)), (∀ x ∈ l, x.2 = true) →
+    pairedT c false l = true → ∀ k ∈ txKinds (l.map Prod.fst), k = true
+  | [], _, _ => by simp
+  | (o, tr) :: r, h, hp => by
+    have htr : tr = true := h (o, tr) (by simp)
+    have ih := pairedT_tracked c r (fun x hx => h x (by simp [hx]))
+    subst htr
+    cases o <;> simp_all [pairedT, txKinds]
 
 /-! ### C08.tx_spacing -/
 
@@ -467,6 +508,7 @@ theorem step_spaced (s : St) (e : Ev) (h : Active s) :
   cases e with
   | call v r T => simp [step, h]
   | report t => simp [step, update, lb]
+  | setTracking b => simp [step, lb]
   | timer =>
     simp only [step]; split
     · simp [txTimes]
@@ -532,6 +574,7 @@ theorem step_quiet (s : St) (e : Ev) (h : Active s) (q : Quiet s) :
   cases e with
   | call v r T => simp [step, h, hh, hq]
   | report t => simp [step, update, hh, hq]
+  | setTracking b => simp [step, hh, hq]
   | built => rcases hq with hq | hq <;> simp [step, hq, hh]
   | wait d => simp only [step]; split <;> simp [hh, hq]
   | timer =>
@@ -628,19 +671,17 @@ def Ev.isCall : Ev → Bool
   | _ => false
 
 theorem idle_step (s : St) (e : Ev) (h : s.phase = .idle) (he : e.isCall = false) :
-    (step s e).1.phase = .idle ∧ (step s e).2 = [] ∧ (step s e).1.tracking = s.tracking ∧
-    (step s e).1.hold = s.hold := by
+    (step s e).1.phase = .idle ∧ (step s e).2 = [] ∧ (step s e).1.hold = s.hold := by
   cases e <;> simp_all [step, update, Ev.isCall]
 
 theorem idle_run (s : St) (pre : List Ev) (h : s.phase = .idle) (hp : ∀ e ∈ pre, e.isCall = false) :
-    (run s pre).1.phase = .idle ∧ (run s pre).2 = [] ∧ (run s pre).1.tracking = s.tracking ∧
-    (run s pre).1.hold = s.hold := by
+    (run s pre).1.phase = .idle ∧ (run s pre).2 = [] ∧ (run s pre).1.hold = s.hold := by
   induction pre generalizing s with
   | nil => simp [h]
   | cons e es ih =>
-    obtain ⟨h1, h2, h3, h4⟩ := idle_step s e h (hp e (by simp))
-    obtain ⟨i1, i2, i3, i4⟩ := ih _ h1 (fun e' he' => hp e' (by simp [he']))
-    simp [h2, i1, i2, i3, i4, h3, h4]
+    obtain ⟨h1, h2, h3⟩ := idle_step s e h (hp e (by simp))
+    obtain ⟨i1, i2, i3⟩ := ih _ h1 (fun e' he' => hp e' (by simp [he']))
+    simp [h2, i1, i2, i3, h3]
 
 
 /-! ### the call step -/
